@@ -140,7 +140,7 @@ func vpKeyLess(a, b string) bool {
 	return len(a) < len(b)
 }
 
-// vp:check C01 both configs=klen:1|2;depth:flat|nested K=60 timeout=1500
+// vp:check C01 both configs=klen:1|2;depth:flat|nested|in-array|in-array-of-arrays|in-object-in-array;top:object|array-of-arrays K=60 timeout=1500
 // vp_C01_sort: object members come out sorted by key (code-point order), at every nesting level, whatever order they
 // were given in. Three keys of 1-2 arbitrary printable ASCII bytes (pairwise distinct; the solver also picks keys that
 // are prefixes of each other and keys differing only in the second byte), values of different kinds; in the nested
@@ -162,8 +162,21 @@ func vp_C01_sort() {
 	}
 	vpAssume(keys[0] != keys[1] && keys[0] != keys[2] && keys[1] != keys[2])
 	vals := []string{`1`, `"v"`, `[true,null]`}
-	if vpConfig("depth") == "nested" {
-		vals[2] = `{"` + keys[1] + `":0,"` + keys[0] + `":[],"` + keys[2] + `":{}}`
+	// where the inner object (same keys, another order) sits: directly as a member value, inside an array, inside
+	// an array that is itself an array element, inside an object inside an array
+	wrap := func(inner string) string {
+		switch vpConfig("depth") {
+		case "in-array":
+			return `[` + inner + `]`
+		case "in-array-of-arrays":
+			return `[[` + inner + `],["s",` + inner + `]]`
+		case "in-object-in-array":
+			return `[1,{"o":` + inner + `}]`
+		}
+		return inner
+	}
+	if vpConfig("depth") != "flat" {
+		vals[2] = wrap(`{"` + keys[1] + `":0,"` + keys[0] + `":[],"` + keys[2] + `":{}}`)
 	}
 	doc := `{"` + keys[0] + `":` + vals[0] + `,"` + keys[1] + `":` + vals[1] + `,"` + keys[2] + `":` + vals[2] + `}`
 	// reference: selection sort of the three (key, value) pairs
@@ -176,11 +189,15 @@ func vp_C01_sort() {
 		}
 	}
 	wantVals := []string{vals[0], vals[1], vals[2]}
-	if vpConfig("depth") == "nested" {
+	if vpConfig("depth") != "flat" {
 		inner := []string{`[]`, `0`, `{}`} // values of keys[0], keys[1], keys[2] inside the inner object
-		wantVals[2] = `{"` + keys[idx[0]] + `":` + inner[idx[0]] + `,"` + keys[idx[1]] + `":` + inner[idx[1]] + `,"` + keys[idx[2]] + `":` + inner[idx[2]] + `}`
+		wantVals[2] = wrap(`{"` + keys[idx[0]] + `":` + inner[idx[0]] + `,"` + keys[idx[1]] + `":` + inner[idx[1]] + `,"` + keys[idx[2]] + `":` + inner[idx[2]] + `}`)
 	}
 	want := `{"` + keys[idx[0]] + `":` + wantVals[idx[0]] + `,"` + keys[idx[1]] + `":` + wantVals[idx[1]] + `,"` + keys[idx[2]] + `":` + wantVals[idx[2]] + `}`
+	if vpConfig("top") == "array-of-arrays" {
+		// the document itself is an element of an array of arrays
+		doc, want = `[[`+doc+`,2],[]]`, `[[`+want+`,2],[]]`
+	}
 	got, err := CanonicalJSON([]byte(doc))
 	vpAssert("accepted", err == nil)
 	if err != nil {
